@@ -39,13 +39,26 @@ Definition gen_value (f : afield) : Gen bytes :=
     gdo n <- (match c with 0 => gret 0 | 1 => gret 254 | 2 => gret 255 | 3 => gret 300 | 4 => gret 1
                       | _ => grange 0 40 end);
     gbytes (N.to_nat n)
-  else gbytes (N.to_nat (aLen f)).
+  else
+    (* mostly arbitrary bytes; sometimes all zero, sometimes all ones *)
+    gdo c <- grand 12;
+    match c with
+    | 0 => gret (repeat 0 (N.to_nat (aLen f)))
+    | 1 => gret (repeat 255 (N.to_nat (aLen f)))
+    | _ => gbytes (N.to_nat (aLen f))
+    end.
 
 Fixpoint gen_values (fs : list afield) : Gen (list bytes) :=
   match fs with
   | [] => gret []
   | f :: r => gdo v <- gen_value f; gdo vs <- gen_values r; gret (v :: vs)
   end.
+
+(* a whole record: one in ten is all zero (every fixed field zero, every variable-length field empty) *)
+Definition zero_value (f : afield) : bytes := if aLen f =? 65535 then [] else repeat 0 (N.to_nat (aLen f)).
+Definition gen_rec_values (fs : list afield) : Gen (list bytes) :=
+  gdo c <- grand 10;
+  if c =? 0 then gret (map zero_value fs) else gen_values fs.
 
 Definition min_size (ver : N) (fs : list afield) : nat := afields_size (ver =? 10) fs.
 
@@ -108,7 +121,7 @@ Definition gen_set (ver : N) (c : ctx) : Gen (aset * ctx) :=
           | Some (COpt id sc op) =>
               let sz := (min_size ver sc + min_size ver op)%nat in
               gdo n <- gen_nrec sz;
-              gdo recs <- glist (N.to_nat n) (gdo a <- gen_values sc; gdo b <- gen_values op; gret (a, b));
+              gdo recs <- glist (N.to_nat n) (gdo a <- gen_rec_values sc; gdo b <- gen_rec_values op; gret (a, b));
               gdo pad <- gen_pad sz;
               gret (AOptData id sc op recs pad, c)
           | _ => gret (ATmpl [], c)
@@ -125,7 +138,7 @@ Definition gen_set (ver : N) (c : ctx) : Gen (aset * ctx) :=
           | Some (CData id fs) =>
               let sz := min_size ver fs in
               gdo n <- gen_nrec sz;
-              gdo recs <- glist (N.to_nat n) (gen_values fs);
+              gdo recs <- glist (N.to_nat n) (gen_rec_values fs);
               gdo pad <- gen_pad sz;
               gret (AData id fs recs pad, c)
           | _ => gret (ATmpl [], c)
